@@ -5,7 +5,7 @@ import random
 from . import tlc, render
 from .common import Scratch, seed as _seed, vlog
 
-TEMPL_FAMILIES = ["loopif", "elif", "nested", "listidx", "swapuse", "ifaug", "iftest", "opgrid", "fixgrid", "chargrid", "tupvar", "names"]
+TEMPL_FAMILIES = ["loopif", "elif", "nested", "listidx", "swapuse", "ifaug", "iftest", "opgrid", "fixgrid", "chargrid", "tupvar", "names", "constfold"]
 SIGS = [1, 2, 3, 4, 5, 6, 7, 8, 9, 10, 11, 12, 13]
 CFG = ("SPECIFICATION Spec\nCONSTANTS MaxTok = %d\n MaxStack = %d\n MaxStmts = %d\n SigId = %d\n Stmts = %s\n Lean = %s\n"
        "INVARIANT Emit\nCHECK_DEADLOCK FALSE\n")
